@@ -151,3 +151,4 @@ macro_rules! c09_options {
         }
     };
 }
+
